@@ -76,12 +76,14 @@ func registerReleaseLevelOption() {
 
 func updateReleaseLevel() {
 	// get value
+	// The user-defined value takes precedence over the default layer,
+	// like for every other option (see getValueCache).
 	value := releaseLevelOption.activeFallbackValue
-	if releaseLevelOption.activeValue != nil {
-		value = releaseLevelOption.activeValue
-	}
 	if releaseLevelOption.activeDefaultValue != nil {
 		value = releaseLevelOption.activeDefaultValue
+	}
+	if releaseLevelOption.activeValue != nil {
+		value = releaseLevelOption.activeValue
 	}
 	// set atomic value
 	switch value.stringVal {
